@@ -81,6 +81,9 @@ impl StdioInterpreter {
         let messages = analyzer.take_messages();
         let lines = analyzer.take_source_file_lines();
         self.interpreter = analyzer.into_interpreter();
+        // The interpreter built from the analyzed program replaces the one
+        // created from the command-line options, so apply them again.
+        self.args.configure_interpreter(&mut self.interpreter);
         if self.args.skip_check {
             return Ok(());
         }
